@@ -397,6 +397,54 @@ func hasRepresentation(ops ...[]Op) bool {
 	return false
 }
 
+// drawTimed draws a history with real sleeps under a 400 ms skew: authenticators with client times spread over
+// the window are presented in any order, time passes, clean-ups run, earlier ones are presented again. Every
+// presentation is placed (by construction, from the summed sleeps) at least 70 ms inside its window.
+func drawTimed(t *rapid.T) Case {
+	const skew = 400
+	offs := []int{}
+	c := Case{Mode: "timed", SkewMs: skew}
+	for i, n := 0, rapid.IntRange(2, 4).Draw(t, "timestamps"); i < n; i++ {
+		off := rapid.SampledFrom([]int{-300, -200, -100, 0, 0, 100, 200, 320}).Draw(t, "ctime-off-ms")
+		offs = append(offs, off)
+		c.TOffUs = append(c.TOffUs, int64(off)*1000+int64(i)) // distinct microseconds: distinct authenticators
+	}
+	elapsed := 0
+	inside := func(o Op) bool {
+		d := elapsed - offs[o.T]
+		if d < 0 {
+			d = -d
+		}
+		return d <= skew-70
+	}
+	var presented []Op
+	for i, n := 0, rapid.IntRange(4, 12).Draw(t, "ops"); i < n; i++ {
+		switch rapid.SampledFrom([]string{"present", "present", "present", "again", "again", "again", "sleep", "sleep", "cleanup", "cleanup"}).Draw(t, "kind") {
+		case "sleep":
+			ms := rapid.SampledFrom([]int{100, 150, 250, 450}).Draw(t, "ms")
+			if elapsed+ms <= 1100 {
+				elapsed += ms
+				c.Pre = append(c.Pre, Op{K: "sleep", Ms: ms})
+			}
+		case "cleanup":
+			c.Pre = append(c.Pre, Op{K: "cleanup"})
+		case "present":
+			o := Op{K: "present", C: rapid.SampledFrom([]int{0, 0, 0, 1}).Draw(t, "client"), T: rapid.IntRange(0, len(offs)-1).Draw(t, "t"), S: rapid.SampledFrom([]int{0, 0, 0, 1}).Draw(t, "svc")}
+			if inside(o) {
+				c.Pre = append(c.Pre, o)
+				presented = append(presented, o)
+			}
+		case "again":
+			if len(presented) > 0 {
+				if o := rapid.SampledFrom(presented).Draw(t, "again"); inside(o) {
+					c.Pre = append(c.Pre, o)
+				}
+			}
+		}
+	}
+	return c
+}
+
 func TestProp(t *testing.T) {
 	r := evid.Start(t, "C02", "exploration")
 	for _, k := range []string{"seq", "timed", "sched", "sched-dfs", "stress", "history"} {
@@ -498,6 +546,34 @@ func TestProp(t *testing.T) {
 		c := timed[i]
 		r.Count(ntKey(c)+fmt.Sprint(i), "mode:timed", fmt.Sprintf("ctime-offset-us:%d", c.TOffUs[0]))
 		r.Sample(fmt.Sprintf("timed/%d", c.TOffUs[0]), c)
+		r.Violation("timed", c, Eval(c))
+	})
+
+	// rapid-drawn timed histories: several client times spread over the window, presented in any order
+	r.Rule("timed-drawn: skew 400 ms; 2-4 authenticators with client times in {-300..+320 ms}; 4-12 steps from {present (client 0-1, service 0-1), present an earlier one again, sleep 100-450 ms, clean-up}, every presentation placed >= 70 ms inside its window by construction; non-trivial = an authenticator is presented again after a sleep or a clean-up")
+	var drawn []Case
+	r.Rapid("timed-gen", r.N(192, 4000), func(t *rapid.T) { drawn = append(drawn, drawTimed(t)) })
+	evid.Parallel(len(drawn), 64, func(i int) {
+		c := drawn[i]
+		nt := ""
+		seen := map[string]bool{}
+		gap := false
+		for _, o := range c.Pre {
+			switch o.K {
+			case "present":
+				k := fmt.Sprint(o.C, o.T, o.S)
+				if seen[k] && gap {
+					nt = ntKey(c)
+				}
+				seen[k] = true
+			default:
+				if len(seen) > 0 {
+					gap = true
+				}
+			}
+		}
+		r.Count(nt, "mode:timed-drawn", fmt.Sprintf("timed-drawn-steps:%d", len(c.Pre)))
+		r.Sample("timed-drawn", c)
 		r.Violation("timed", c, Eval(c))
 	})
 
